@@ -798,6 +798,163 @@ Qed.
 
 End AddOne.
 
+Lemma split_wf child tok c r1 r2 :
+  t_path child = String c r1 -> tok = String c r2 -> WF child ->
+  forall child1 split, split_common_prefix child tok = (child1, split) ->
+  1 <= split <= slen tok /\ t_path child1 = stake split tok /\ WF child1.
+Proof.
+  intros Hp Ht Hwf child1 split. unfold split_common_prefix.
+  destruct (prefix (t_path child) tok) eqn:Epre.
+  - intro H. inversion H; subst child1 split. clear H.
+    split; [split; [rewrite Hp, slen_cons; lia | apply prefix_slen; assumption]|].
+    split; [symmetry; apply prefix_stake; assumption | assumption].
+  - set (i := common_prefix_len (t_path child) tok).
+    assert (Hi1 : 1 <= i) by (unfold i; rewrite Hp, Ht; apply common_prefix_head).
+    destruct (common_prefix_le (t_path child) tok) as [Hia Hib]. fold i in Hia, Hib.
+    assert (Hst : stake i (t_path child) = stake i tok) by apply common_prefix_stake.
+    destruct (sdrop i (t_path child)) as [|c0 rest0] eqn:Erest.
+    + exfalso. assert (E : t_path child = stake i tok).
+      { rewrite <- Hst. rewrite <- (stake_sdrop i (t_path child)) at 1. rewrite Erest.
+        clear. generalize (stake i (t_path child)). intro s. induction s; simpl; congruence. }
+      assert (P : prefix (t_path child) tok = true).
+      { rewrite E. rewrite <- (stake_sdrop i tok) at 2. apply prefix_app. }
+      congruence.
+    + intro H. inversion H; subst child1 split. clear H. simpl.
+      split; [lia|]. split; [reflexivity|].
+      constructor; simpl; [|discriminate]. constructor; [|constructor]. simpl. split.
+      * exists rest0. reflexivity.
+      * apply WF_set_path. assumption.
+Qed.
+
+(* ------------------------------------------------------------------ accepted expressions are valid *)
+
+(** "no segments are allowed after a free wildcard": the name of a free wildcard contains no '/' *)
+Definition no_slash (s : string) : Prop := next_sep s = slen s.
+Definition valid_from (md : mode) (s : string) : Prop :=
+  forall n, In (EX n) (fposm md s) -> no_slash n.
+Definition valid_expr (e : string) : Prop := valid_from MSeg e.
+
+Lemma In_EX_ecs n s : ~ In (EX n) (ecs s).
+Proof. unfold ecs. induction (chars s) as [|c r IH]; simpl; [tauto|]. intros [H|H]; [discriminate | auto]. Qed.
+
+(** [Add] accepts only valid expressions (the same walk as [add_node_inv], without the stored entries) *)
+Lemma add_node_valid flag v : forall fuel n path wk ins n',
+  WF n -> add_node true fuel n path wk ins (put_value flag v) = AOk n' ->
+  WF n' /\ t_path n' = t_path n /\ valid_from (mode_of ins) path.
+Proof.
+  set (fin := put_value flag v).
+  induction fuel as [|f IH]; intros n path wk ins n' Hwf Hadd; [discriminate|].
+  assert (Hwf' : forall k, WF (fin (set_keys n k))).
+  { intro k. inversion Hwf as [n00 Hwfs0 Hwfw0]; subst n00. constructor; assumption. }
+  destruct path as [|token prest].
+  - simpl in Hadd. split; [|split; [|intros x []]].
+    + destruct (is_nil wk).
+      * inversion Hadd; subst n'. replace (fin n) with (fin (set_keys n (t_keys n))) by (destruct n; reflexivity). apply Hwf'.
+      * destruct (negb (is_nil (t_keys n)) && negb (list_eqb String.eqb (t_keys n) wk)); [discriminate|].
+        inversion Hadd; subst n'. apply Hwf'.
+    + destruct (is_nil wk).
+      * inversion Hadd; subst n'. reflexivity.
+      * destruct (negb (is_nil (t_keys n)) && negb (list_eqb String.eqb (t_keys n) wk)); [discriminate|].
+        inversion Hadd; subst n'. reflexivity.
+  - rewrite add_node_cons in Hadd. cbv zeta in Hadd.
+    set (path := String token prest) in *.
+    destruct (negb ins && Ascii.eqb token "*") eqn:Estar.
+    + apply andb_true_iff in Estar as [Ei Et]. apply negb_true_iff in Ei. subst ins.
+      apply Ascii.eqb_eq in Et. subst token.
+      assert (Hnosl := index_byte_next_sep path).
+      destruct (index_byte "/" path) as [k|] eqn:Eib; [discriminate|].
+      set (c0 := match t_catch n with Some c => c | None => leaf (sdrop 1 (this_tok path)) end).
+      set (n1 := match t_catch n with Some c => n | None => child_created n end).
+      assert (Hadd' : (if negb (String.eqb (sdrop 1 path) (t_path c0)) then AInvalid else
+                       if true && negb (is_nil (t_keys c0)) &&
+                          negb (list_eqb String.eqb (t_keys c0) (wk ++ [sdrop 1 (this_tok path)]))
+                       then AInvalid else AOk (set_catch n1 (fin (set_keys c0 (wk ++ [sdrop 1 (this_tok path)]))))) = AOk n').
+      { unfold c0, n1. destruct (t_catch n); exact Hadd. }
+      clear Hadd. destruct (negb (String.eqb (sdrop 1 path) (t_path c0))); [discriminate|].
+      destruct (true && _ && _); [discriminate|]. inversion Hadd'; subst n'. clear Hadd'.
+      assert (Hn1 : t_statics n1 = t_statics n /\ t_wild n1 = t_wild n /\ t_path n1 = t_path n).
+      { unfold n1. destruct (t_catch n); simpl; repeat split. }
+      destruct Hn1 as (E3 & E4 & E5).
+      split; [|split].
+      * inversion Hwf as [n00 Hwfs0 Hwfw0]; subst n00. constructor; simpl; rewrite ?E3, ?E4; assumption.
+      * simpl. exact E5.
+      * intros x Hx. unfold path in Hx. cbn [mode_of] in Hx. rewrite fposm_seg in Hx.
+        change (Ascii.eqb "*" "*") with true in Hx. cbv iota in Hx. destruct Hx as [Hx|[]]. inversion Hx; subst x.
+        unfold no_slash. unfold path in Hnosl. rewrite next_sep_cons in Hnosl.
+        change (Ascii.eqb slash "*") with false in Hnosl. rewrite slen_cons in Hnosl. lia.
+    + destruct (negb ins && Ascii.eqb token ":") eqn:Ecolon.
+      * apply andb_true_iff in Ecolon as [Ei Et]. apply negb_true_iff in Ei. subst ins.
+        apply Ascii.eqb_eq in Et. subst token.
+        assert (Hte : tok_end path = S (next_sep prest)) by (apply tok_end_nonslash; reflexivity).
+        rewrite Hte in Hadd. unfold path in Hadd. cbn [sdrop] in Hadd.
+        set (w0 := match t_wild n with Some w => w | None => leaf "wildcard" end).
+        set (n1 := match t_wild n with Some w => n | None => child_created n end).
+        set (wk' := wk ++ [sdrop 1 (this_tok (String ":" prest))]) in *.
+        assert (Hadd' : match add_node true f w0 (sdrop (next_sep prest) prest) wk' false fin with
+                        | AOk w' => AOk (set_wild n1 w') | x => x end = AOk n').
+        { unfold w0, n1. destruct (t_wild n); exact Hadd. }
+        clear Hadd.
+        destruct (add_node true f w0 (sdrop (next_sep prest) prest) wk' false fin) as [w'| |] eqn:Erec; try discriminate.
+        inversion Hadd'; subst n'. clear Hadd'.
+        assert (Hw0 : WF w0).
+        { unfold w0. destruct (t_wild n) as [ww|] eqn:Ew; [|apply WF_leaf].
+          inversion Hwf as [n00 Hwfs0 Hwfw0]; subst n00. auto. }
+        destruct (IH w0 _ _ false w' Hw0 Erec) as (R1 & R3 & R4).
+        assert (Hn1 : t_statics n1 = t_statics n /\ t_path n1 = t_path n).
+        { unfold n1. destruct (t_wild n); simpl; repeat split. }
+        destruct Hn1 as (E3 & E5).
+        split; [|split].
+        -- inversion Hwf as [n00 Hwfs0 Hwfw0]; subst n00. constructor; simpl; rewrite ?E3; [assumption|].
+           intros w E. inversion E; subst. assumption.
+        -- simpl. exact E5.
+        -- intros x Hx. unfold path in Hx. cbn [mode_of] in Hx. rewrite fposm_seg in Hx.
+           change (Ascii.eqb ":" "*") with false in Hx. change (Ascii.eqb ":" ":") with true in Hx.
+           cbv iota in Hx. rewrite name_skip in Hx. destruct Hx as [Hx|Hx]; [discriminate|].
+           apply (R4 x). exact Hx.
+      * assert (Hnw : ins = false -> Ascii.eqb token "*" = false /\ Ascii.eqb token ":" = false).
+        { intros ->. cbn [negb andb] in Estar, Ecolon. auto. }
+        assert (Hhead := this_tok'_head ins token prest). fold path in Hhead.
+        destruct Hhead as (trest & Htok).
+        destruct (find_static (tok' ins path) (t_statics n)) as [child|] eqn:Efs.
+        -- assert (Hin := find_static_In _ _ _ Efs).
+           inversion Hwf as [n0 Hwfs Hwfw]; subst n0.
+           assert (Hch : head_is (tok' ins path) (t_path child) /\ WF child).
+           { rewrite Forall_forall in Hwfs. apply (Hwfs _ Hin). }
+           destruct Hch as [(crest & Hcp) Hcwf].
+           destruct (split_common_prefix child (this_tok' ins path)) as [child1 split] eqn:Esp.
+           destruct (split_wf child _ _ _ _ Hcp Htok Hcwf _ _ Esp) as (Hsplit & Hp1 & Hwf1).
+           destruct (add_node true f child1 (sdrop (if is_esc ins path then S split else split) path) wk
+                              (negb (Ascii.eqb (tok' ins path) "/")) fin) as [child2| |] eqn:Erec; try discriminate.
+           inversion Hadd; subst n'. clear Hadd.
+           assert (Hcons := static_consume ins token prest split Hnw Hsplit). fold path in Hcons.
+           destruct (IH child1 _ _ _ child2 Hwf1 Erec) as (R1 & R3 & R4).
+           split; [|split; [reflexivity|]].
+           ++ constructor; simpl; [|assumption].
+              apply replace_static_Forall; [assumption|]. intros t _. simpl. split; [|assumption].
+              rewrite R3, Hp1, Htok. destruct split as [|s0]; [lia|]. cbn [stake]. eexists. reflexivity.
+           ++ intros x Hx. rewrite Hcons in Hx. apply in_app_or in Hx as [Hx|Hx]; [exfalso; exact (In_EX_ecs _ _ Hx)|].
+              rewrite <- after_mode_of in Hx. apply (R4 x Hx).
+        -- destruct (add_node true f (leaf (this_tok' ins path)) (sdrop (tok_end path) path) wk
+                              (negb (Ascii.eqb (tok' ins path) "/")) fin) as [child'| |] eqn:Erec; try discriminate.
+           inversion Hadd; subst n'. clear Hadd.
+           assert (Hlen : 1 <= slen (this_tok' ins path) <= slen (this_tok' ins path)).
+           { rewrite Htok, slen_cons. lia. }
+           assert (Hcons := static_consume ins token prest _ Hnw Hlen). fold path in Hcons.
+           rewrite stake_all in Hcons by lia.
+           assert (Hdrop : sdrop (if is_esc ins path then S (slen (this_tok' ins path)) else slen (this_tok' ins path)) path
+                           = sdrop (tok_end path) path).
+           { f_equal. apply this_tok'_len. }
+           rewrite Hdrop in Hcons.
+           destruct (IH (leaf (this_tok' ins path)) _ _ _ child' (WF_leaf _) Erec) as (R1 & R3 & R4).
+           simpl in R3.
+           split; [|split; [reflexivity|]].
+           ++ inversion Hwf as [n0 Hwfs Hwfw]; subst n0. constructor; simpl; [|assumption].
+              apply Forall_app. split; [assumption|]. constructor; [|constructor]. simpl.
+              split; [|assumption]. rewrite R3, Htok. eexists. reflexivity.
+           ++ intros x Hx. rewrite Hcons in Hx. apply in_app_or in Hx as [Hx|Hx]; [exfalso; exact (In_EX_ecs _ _ Hx)|].
+              rewrite <- after_mode_of in Hx. apply (R4 x Hx).
+Qed.
+
 (* ------------------------------------------------------------------ the whole table *)
 
 Lemma add_entries_inv : forall rest done t t',
@@ -844,4 +1001,24 @@ Proof.
     rewrite Forall_forall in Hst. apply (Hst _ Hin).
   - simpl. change (FW :: flat pi) with ([FW] ++ flat pi). rewrite app_assoc. apply IH; [|assumption]. auto.
   - simpl. eauto.
+Qed.
+
+(** every expression of a loaded table is valid *)
+Lemma add_entries_valid : forall rest vid t t',
+  WF t -> add_entries true t vid rest = AOk t' -> Forall (fun e => valid_expr (ce_path e)) rest.
+Proof.
+  induction rest as [|e r IH]; intros vid t t' Hwf Hadd; [constructor|]. simpl in Hadd. unfold tree_add in Hadd.
+  destruct (add_node true (S (S (slen (ce_path e)))) t (ce_path e) [] false (put_value (ce_bt e) vid))
+    as [t1| |] eqn:E1; try discriminate.
+  destruct (add_node_valid _ _ _ _ _ _ _ _ Hwf E1) as (W1 & _ & V1).
+  constructor; [exact V1 | exact (IH _ _ _ W1 Hadd)].
+Qed.
+
+Lemma loaded_valid fx4 ds es t :
+  load true fx4 ds = Loaded es t -> Forall (fun e => valid_expr (ce_path e)) es.
+Proof.
+  unfold load. destruct (create_rules fx4 ds) as [cs|]; [|discriminate].
+  destruct (add_entries true empty_tree 0 (entries_of 0 cs)) as [t0| |] eqn:E; try discriminate.
+  intro H. inversion H; subst. clear H.
+  apply (add_entries_valid _ _ _ _ (WF_leaf "") E).
 Qed.
